@@ -297,16 +297,17 @@ Proof.
   Unshelve. all: lia.
 Qed.
 
-Lemma good_decodeLabels : forall K C fuel pl cons acc,
+Lemma good_decodeLabels : forall K C fuel pl cons acc, pl < 256 ->
   good fuel K C 0 (fun t => snd (fst t) < 256) (decodeLabels fuel pl cons acc).
 Proof.
-  intros K C. induction fuel as [|f IH]; intros; [apply good_fuel0|].
+  intros K C. induction fuel as [|f IH]; intros pl cons acc Hpl; [apply good_fuel0|].
   cbn [decodeLabels].
   eapply good_bind_strict with (c2 := 0); [apply good_bufRead | cbn; lia | | shelve].
   intros [lb k] _. cbv zeta.
+  gbind ltac:(apply good_guard). intros u Hg. cbv beta in Hg.
   destruct (N.odd _).
   - apply good_ret. cbn [fst snd]. lia.
-  - apply IH.
+  - apply IH. lia.
   Unshelve. all: cbn; lia.
 Qed.
 
@@ -322,7 +323,7 @@ Proof.
   intros [pid cons] _.
   gbyte. intros pl Hpl. cbv beta zeta in *.
   gbind ltac:(instantiate (1 := fun t => snd (fst t) < 256); instantiate (1 := 0); destruct (safi =? 4);
-              [ apply good_decodeLabels | apply good_ret; cbn [fst snd]; exact Hpl ]).
+              [ apply good_decodeLabels; exact Hpl | apply good_ret; cbn [fst snd]; exact Hpl ]).
   intros [[labels pl2] cons2] Hq. cbn [fst snd] in Hq. cbv beta zeta.
   pose proof (bytesInAddr_le pl2 Hq) as Hn.
   eapply good_alloc_bind with (c2 := 0) (C1 := 0); [apply good_bufReadFull | lia | lia | | lia].
